@@ -1257,7 +1257,12 @@ package jsonpath
 // entry state of a function (sound there for every function that leaves the `next` links alone).
 //@ smt (declare-fun PN (Val) Bool)
 //@ spec PNmulti(m *syntaxChildMultiIdentifier) bool = m != nil && wf(m.identifiers) && (forall k {elemAt(m.identifiers, k)} :: off(m.identifiers) <= k && k < off(m.identifiers) + len(m.identifiers) ==> nodeOK(elemAt(m.identifiers, k))) && (m.isAllWildcard ==> m.unionQualifier != nil && m.unionQualifier.syntaxBasicNode != nil)
-//@ spec PNdef(v any) bool = nodeOK(v) && 0 <= chainLen(v) && (basicOf(v).next != nil ==> PN(basicOf(v).next) && chainLen(basicOf(v).next) < chainLen(v)) && (isType(v, *syntaxChildMultiIdentifier) ==> PNmulti(asType(v, *syntaxChildMultiIdentifier))) && (isType(v, *syntaxAggregateFunction) ==> asType(v, *syntaxAggregateFunction) != nil && (asType(v, *syntaxAggregateFunction).param != nil ==> PN(asType(v, *syntaxAggregateFunction).param)))
+//@ spec PNdef(v any) bool = nodeOK(v) && 0 <= chainLen(v) && (basicOf(v).next != nil ==> PN(basicOf(v).next) && chainLen(basicOf(v).next) < chainLen(v)) && (isType(v, *syntaxChildMultiIdentifier) ==> PNmulti(asType(v, *syntaxChildMultiIdentifier))) && (isType(v, *syntaxAggregateFunction) ==> asType(v, *syntaxAggregateFunction) != nil && (asType(v, *syntaxAggregateFunction).param != nil ==> PN(asType(v, *syntaxAggregateFunction).param) && chainLen(asType(v, *syntaxAggregateFunction).param) < chainLen(v)))
+
+// LK(v): the chain hanging off v has been linked (after setNodeChain): every aggregate function on it has its parameter
+// path, and that path is linked too.  Assumed where action 0 fires (hand-written rule contract), unfolded like PN.
+//@ smt (declare-fun LK (Val) Bool)
+//@ spec LKdef(v any) bool = (basicOf(v).next != nil ==> LK(basicOf(v).next)) && (isType(v, *syntaxAggregateFunction) ==> asType(v, *syntaxAggregateFunction).param != nil && LK(asType(v, *syntaxAggregateFunction).param))
 
 // chainWalk(v): v's successor (if any) is again a node with a strictly shorter chain (ghost ranking for termination)
 //@ spec chainWalk(v any) bool = basicOf(v).next != nil ==> nodeOK(basicOf(v).next) && 0 <= chainLen(basicOf(v).next) && chainLen(basicOf(v).next) < chainLen(v) && chainWalkNext(basicOf(v).next)
@@ -1323,6 +1328,8 @@ package jsonpath
 //@   proves kept: !((isType(targetNode, *syntaxRootIdentifier) || isType(targetNode, *syntaxCurrentRootIdentifier)) && old(basicOf(targetNode).next) != nil) ==> ret == targetNode
 //@   proves links: (isType(targetNode, *syntaxRootIdentifier) || isType(targetNode, *syntaxCurrentRootIdentifier)) ==> (forall b {F_syntaxBasicNode_next[b]} :: F_syntaxBasicNode_next[b] == old(F_syntaxBasicNode_next[b]))
 //@   ensures chain: nodeWF(ret)
+//@   unfold forall v Val {LK(v)} :: LK(v) ==> LKdef(v)
+//@   proves linked: LK(targetNode) ==> LK(ret)
 //@   requires nodeOK(targetNode) && 0 <= chainLen(targetNode) && chainWalk(targetNode)
 //@   decreases chainLen(targetNode)
 
@@ -1606,10 +1613,11 @@ package jsonpath
 //@ func (*jsonPathParser).setConnectedText
 //@   props C02 C19 C15
 //@   parsetime
-//@   trusted
 //@   requires p != nil
+//@   unfold forall v Val {PN(v)} :: PN(v) ==> PNdef(v)
+//@   unfold forall v Val {LK(v)} :: LK(v) ==> LKdef(v)
 //@   before setConnectedText#2 assert suffix: arg0 == basicOf(recv).text + (basicOf(recv).next != nil ? basicOf(basicOf(recv).next).connectedText : (len(postfix) > 0 ? postfix[0] : "")) && recv == targetNode
-//@   requires nodeOK(targetNode) && 0 <= chainLen(targetNode) && chainWalk(targetNode)
+//@   requires PN(targetNode) && LK(targetNode)
 //@   decreases chainLen(targetNode)
 
 // C15: the text an error names is the text of the step as written - the node on top of the stack gets exactly the captured text
@@ -1794,6 +1802,7 @@ package jsonpath
 // the token list: captured text ranges lie inside the rune buffer (A-PEG)
 //@   case rulePegText assume wf(_buffer) && 0 <= token.begin && token.begin <= token.end && token.end <= len(_buffer)
 // what the grammar guarantees beyond the types of the popped values (hand-written rule contracts)
+//@   case ruleAction0 assume LK(stk(p, 0))
 //@   case ruleAction1 assume 0 <= begin && begin <= runeCount(buffer)
 //@   case ruleAction2 assume len(p.jsonPathParser.params) >= 1 && (forall k {elemAt(p.jsonPathParser.params, k)} :: off(p.jsonPathParser.params) <= k && k < off(p.jsonPathParser.params) + len(p.jsonPathParser.params) ==> nodeWF(elemAt(p.jsonPathParser.params, k)))
 //@   case ruleAction4 assume lastNodeOK(p)
